@@ -30,7 +30,7 @@ def reference(c, work):
         return dict(exc=type(e).__name__)
 
 
-def call_run(argv, outpath):
+def call_run(argv, outpath, preload=None):
     """-> dict(status, out=hex of file or stdout bytes | None, exc)"""
     buf = io.BytesIO()
     old_stdout, old_stderr, old_argv = sys.stdout, sys.stderr, sys.argv
@@ -40,6 +40,9 @@ def call_run(argv, outpath):
     res = {}
     if outpath and os.path.exists(outpath):
         os.unlink(outpath)
+    if preload is not None:
+        with open(outpath, "wb") as f:
+            f.write(preload)
     try:
         try:
             _cffi_gen_src.run(argv)
@@ -80,6 +83,23 @@ def main(payload):
         sys.modules.pop("helper_mod", None)
         r["stdout"] = call_run(argv + ["-"], None)
         r["argv"] = argv
+        if c.get("crlf_target") and "bytes" in r["ref"]:
+            # the witness of C24_direct_crlf_target_refuted on the real programs: OUTPUT / the emit_c_code target
+            # already holds the generated text with CRLF line ends
+            ref = bytes.fromhex(r["ref"]["bytes"])
+            crlf = ref.replace(b"\n", b"\r\n")
+            sys.modules.pop("helper_mod", None)
+            t = call_run(argv + [out], out, preload=crlf)
+            p2 = os.path.join(d, "ref_crlf.c")
+            with open(p2, "wb") as f:
+                f.write(crlf)
+            ffi = cffi.FFI()
+            ffi.cdef(c["cdef"])
+            ffi.set_source(c["name"], c["csrc"])
+            ffi.emit_c_code(p2)
+            got = open(p2, "rb").read()
+            r["crlf_target"] = dict(tool_status=t["status"], tool_equals_ref=t["out"] == r["ref"]["bytes"],
+                                    direct_kept_crlf=got == crlf, direct_equals_ref=got == ref, has_newline=crlf != ref)
         sys.modules.pop("helper_mod", None)      # each case has its own sibling module of that name
         results.append(r)
     return dict(results=results)
